@@ -20,6 +20,26 @@ CHECKS = {
    note=NOTE + " C10: OMap.v is a hand transcription of stringMap/numericMap (tie by correspondence); Go's built-in map and maps.Keys are assumed to be a finite map and a permutation of its keys.",
    technique="Coq proof by invariant + refinement over all operation histories; vm_compute correspondence; differential against native Go maps",
    ref="DESIGN.md section 5 C10"),
+ "C08": dict(
+   text="Theorem c08_refine: for every well-bracketed sequence of Begin/End/Declare/Resolve (any depth, any order) the flat '~'-renaming symbol table of lookup.go + compiler.Shadow/Begin/End gives exactly the slots of the textbook stack-of-blocks semantics; c08_budget: the recursive shadow/unshadow terminate. Correspondence through hook VerifLookup; system level: generated Go programs redeclaring names at every block kind vs the Go toolchain.",
+   note=NOTE + " C08: Lookup.v is a hand transcription (tie by correspondence); which compiler cases call Begin/End/Shadow (if, for, range, switch, func) is covered by the differential programs, not by a theorem; 'variables start fresh each iteration' is covered by the differential only.",
+   technique="Coq refinement proof (simulation invariant) over all operation sequences + correspondence + differential against go build",
+   ref="DESIGN.md section 5 C08"),
+ "C12": dict(
+   text="Full functional correctness of the robin-hood table (Model/IntMap.v): representation invariant incl. robin-hood order, Set/Assign/Delete/Get/Len refine a finite map for all keys and all histories, across every growth/shrink threshold; termination of every probing loop (c12_budget). Correspondence: histories on the real intMap (hook VerifIntMap) compared answer by answer and cell by cell; system level: struct programs with 0..200 fields vs the Go toolchain.",
+   note=NOTE + " C12: IntMap.v is a hand transcription (tie by correspondence); structT's use of the table (Lookup/Order/Fields/Methods, NEWSTRUCT copying the type's table) is covered by the struct differential, not by a theorem; methods on `type B T` instances are not valid Go and are not checked.",
+   technique="Coq proof of a representation invariant and map refinement (1,350 lines) + cell-by-cell correspondence + differential against go build",
+   ref="DESIGN.md section 5 C12"),
+ "C15": dict(
+   text="Theorems c15_terminates, c15_order (the order handed to the compiler lists exactly the reachable packages, once each, dependencies first), c15_cycle (a cycle is an error), c15_acyclic (every acyclic graph loads), for every finite import graph, proved on Model/Loader.v. Correspondence: Load on in-memory trees with marker prints, exact order compared; contract checks for once-only init, _test.go, //go:build, vendor/ and shortened paths, conflicting package clauses.",
+   note=NOTE + " C15: Loader.v is a hand transcription of loadImports (tie by correspondence); rawLoadPackage's file selection (Glob, _test filter, constraint evaluation, candidate directories) is checked by the harness contract checks only, not by a theorem.",
+   technique="Coq proof (worklist invariant, topological order, cycle extraction by pigeonhole) + exact-order correspondence",
+   ref="DESIGN.md section 5 C15"),
+ "C16": dict(
+   text="Theorems on the sort regenerated-table + Model/TreeSort.v: c16_table (hoisting order of the generated priority table), c16_sort_spec/unique (treeSort is THE stable descending sort), c16_layout_invariant (any permutation of hoistable declarations and any file partition gives the compiler the same non-hoistable sequence and the same declarations level by level), c16_join. Correspondence with the real treeSort (hook); system level: permuted/repartitioned packages must behave identically and as the Go toolchain.",
+   note=NOTE + " C16: that declarations of one level commute at run time (GLOBALFUNC/GLOBALSTRUCT/SETMETHOD keyed by interned index) is NOT proved; it is checked by the permutation differential only (c16_full_partial in DESIGN.md).",
+   technique="Coq proof of stable-sort uniqueness and layout invariance over the go2v-regenerated table + correspondence + metamorphic/differential runs",
+   ref="DESIGN.md section 5 C16"),
 }
 NOT_APPLICABLE = []
 def main():
